@@ -157,7 +157,10 @@ def corpus_of(fmt):
 
 def run(ck):
     quick = ck.tier == "quick"
+    import time
+    t0 = time.time()
     ck.proofs(["XmpProps.C19"], required=REQUIRED, drivers=["drv_c19"])
+    ck.note("t_proofs_s", round(time.time() - t0, 1))
     exe = vlib.build_harness("c19_roundtrip", ["c19_roundtrip.c"])
     drv = vlib.lean_driver("drv_c19")
     if not os.path.exists(drv):
@@ -182,6 +185,7 @@ def run(ck):
 
     files = {}          # id -> (fmt, bytes, expected body, opts)
     for fmt in FORMATS:
+        tf = time.time()
         n = {"quick": 96, "thorough": 1500}[ck.tier]
         reqs = []
         for i in range(n):
@@ -250,6 +254,8 @@ def run(ck):
             else:
                 bump(fmt + "_oracle_agree")
 
+        ck.note("t_oracle_%s_s" % fmt, round(time.time() - tf, 1))
+        tf = time.time()
         # ---- correspondence of the Lean loader model: mutants and corpus ---------------------------
         cases = {}
         ids = [c for c in files if files[c][0] == fmt]
@@ -303,6 +309,7 @@ def run(ck):
             else:
                 ck.cov["traces_validated_against_impl"] += 1
                 bump("%s_corr_%s_agree" % (fmt, kind))
+        ck.note("t_corr_%s_s" % fmt, round(time.time() - tf, 1))
     for k, v in sorted(stats.items()):
         ck.note(k, v)
     ck.cov["rule"] = ("oracle cases = (format, abstract song, writer options) generated from VERIF_SEED by the Lean driver; distinct by hash of "
